@@ -7,7 +7,19 @@ tiny_std::thread::{spawn, JoinHandle::join, Drop} under `strace -f` (raw argumen
 protocol points and every heap event visible as marker system calls, so one totally ordered stream carries
 mmap / clone / set_tid_address / futex / munmap / exit per tid + markers + allocator events.
 The stream is (a) judged directly against the property in plain Python and (b) mapped to the Lean model's events
-and replayed by drv_c05: the model must accept the history, end with a clean ledger and predict every join."""
+and replayed by drv_c05: the model must accept the history, end with a clean ledger and predict every join.
+
+Tie T (checks/thread_extract.py -> Gen/ThreadSites.lean -> Props/C05 `gen_shape_ok`, `gen_params_from_paths`,
+`gen_cfg_good`) is semantic: helper functions inlined, paths enumerated, orderings as "at least".  A model parameter
+the extractor cannot decide from the source (a construct it does not understand) is taken from the running code —
+`calibrate`: fault-injected / scheduled probe runs — and reported in the evidence (`coverage.tie_T`); the demand that
+the parameters be the good ones is never dropped.  Orders the model does not rely on are canonicalised before the
+replay (the releases of spawn's error path commute: `undo_releases_commute`).
+
+Result classes include types whose `Option<T>::None` is not the all-zero pattern (bool, char, Ordering, field-less
+enum, Option<u32>, Result<u8,u8>, a struct(bool) with a counting destructor): "None exactly when the closure
+panicked, Some(v) with the exact value otherwise" is judged for them too, joined and dropped (a value nobody made must
+never be dropped)."""
 import concurrent.futures as cf
 import os
 import re
@@ -1106,7 +1118,9 @@ def calibrate(exe, cfg0, want):
                 out[k] = v
                 how[k] = "join on a running thread: futex(word, op=%s, val=%s) parked" % ("FUTEX_WAIT|PRIVATE" if wp else "FUTEX_WAIT", je)
     if "dropExpect" in want:
-        its, _ = one("".join("t %d ret 300 2 drop 300\n" % i for i in range(16)) + "go\n")
+        # one thread per batch, handle dropped after the same delay the closure sleeps: some of them meet the thread between its
+        # CAS and its exit
+        its, _ = one("".join("t %d ret %d 2 drop %d\ngo\n" % (i % 64, d, d) for i, d in enumerate(list(range(0, 1500, 40)) * 2)), timeout=30.0)
         vals = set()
         for it in its:
             for inst in it["insts"].values():
